@@ -221,8 +221,15 @@ func ValidVPs() []*VP {
 			out = append(out, &VP{Op: op, Ints: []*big.Int{a}, Name: fmt.Sprintf("%s(%s)", opNames[op], shortInt(a))})
 		}
 	}
-	for _, b := range BytesPool {
-		out = append(out, &VP{Op: 5, Bytes: [][]byte{b}, Name: fmt.Sprintf("BytesEq(len %d)", len(b))})
+	for i, b := range BytesPool {
+		tag := ""
+		switch i {
+		case 2:
+			tag = " zero"
+		case 3:
+			tag = " one"
+		}
+		out = append(out, &VP{Op: 5, Bytes: [][]byte{b}, Name: fmt.Sprintf("BytesEq(len %d%s)", len(b), tag)})
 	}
 	return out
 }
